@@ -28,6 +28,8 @@ def stepLine (s : St) (line : String) : St × String :=
         | some op => let (m', r) := s.m.step op; ({ s with m := m' }, renderRes r)
         | none => (s, "unmodelled")
       else
+        -- ReadOnlyFs.LstatIfPossible: the source's Lstat, or its Stat; MemMapFs has no links, so it is Stat
+        let toks := if t0 = "lstat" then "stat" :: rest else toks
         match parseOp toks with
         | some op => let (m', r) := roStep s.m op; ({ s with m := m' }, renderRes r)
         | none => (s, "unmodelled")
